@@ -613,7 +613,29 @@ func (g *decGen) routeConfig(name string) *v3routepb.RouteConfiguration {
 	for i := 0; i < g.r.intn(4); i++ {
 		vh := &v3routepb.VirtualHost{Name: fmt.Sprintf("vh%d", i)}
 		for j := 0; j < g.r.intn(4); j++ {
-			vh.Routes = append(vh.Routes, g.route())
+			rt := g.route()
+			vh.Routes = append(vh.Routes, rt)
+			if len(rt.GetMatch().GetHeaders()) > 0 && g.r.chance(30) {
+				// a twin of the route: the same header names and pattern texts, but every condition of another KIND (exact ->
+				// prefix -> regular expression -> exact): what a route's conditions are is never shared between routes
+				tw := proto.Clone(rt).(*v3routepb.Route)
+				for _, h := range tw.GetMatch().GetHeaders() {
+					sm, ok := h.GetHeaderMatchSpecifier().(*v3routepb.HeaderMatcher_StringMatch)
+					if !ok || sm.StringMatch == nil {
+						continue
+					}
+					switch p := sm.StringMatch.MatchPattern.(type) {
+					case *v3matcher.StringMatcher_Exact:
+						sm.StringMatch.MatchPattern = &v3matcher.StringMatcher_Prefix{Prefix: p.Exact}
+					case *v3matcher.StringMatcher_Prefix:
+						sm.StringMatch.MatchPattern = &v3matcher.StringMatcher_SafeRegex{SafeRegex: &v3matcher.RegexMatcher{Regex: p.Prefix}}
+					case *v3matcher.StringMatcher_SafeRegex:
+						sm.StringMatch.MatchPattern = &v3matcher.StringMatcher_Exact{Exact: p.SafeRegex.GetRegex()}
+					}
+				}
+				vh.Routes = append(vh.Routes, tw)
+				g.hit("route.twin-other-kinds")
+			}
 		}
 		rc.VirtualHosts = append(rc.VirtualHosts, vh)
 	}
